@@ -151,6 +151,29 @@ func rarePoints(r *rng, perClass int) []pt {
 			}
 		}
 	}
+	// (d) a coordinate in the window [N, P) (where N and P are easily confused): y = N + t with y^2 - 7 a cube,
+	//     x = N + t with x^3 + 7 a square
+	{
+		found := 0
+		for t := int64(0); t < 4000 && found < perClass; t++ {
+			y := new(big.Int).Add(curveN, big.NewInt(t))
+			v := new(big.Int).Mod(new(big.Int).Sub(new(big.Int).Mul(y, y), big.NewInt(7)), curveP)
+			if p, ok := fromCube(v); ok {
+				found++
+				out = append(out, pt{p.x, y})
+			}
+		}
+		found = 0
+		for t := int64(0); t < 4000 && found < perClass; t++ {
+			x := new(big.Int).Add(curveN, big.NewInt(t))
+			w := new(big.Int).Mod(new(big.Int).Add(new(big.Int).Exp(x, three, curveP), big.NewInt(7)), curveP)
+			y := new(big.Int).Exp(w, sqrtExp, curveP)
+			if new(big.Int).Mod(new(big.Int).Mul(y, y), curveP).Cmp(w) == 0 {
+				found++
+				out = append(out, pt{x, y})
+			}
+		}
+	}
 	for _, cl := range classes {
 		found := 0
 		for i := 0; i < 400 && found < perClass; i++ {
@@ -255,6 +278,11 @@ func scalarBytesPool(r *rng, nRand int) [][]byte {
 			out = append(out, pad32(modN(new(big.Int).Add(k, big.NewInt(1))).Bytes()), pad32(modN(new(big.Int).Sub(k, big.NewInt(1))).Bytes()))
 		}
 		out = append(out, pad32(t.Bytes()))
+	}
+	// exact multiples of N that need more than 32 bytes (reduce to the empty scalar), and their successors
+	for _, j := range []*big.Int{big.NewInt(2), big.NewInt(3), big.NewInt(255), big.NewInt(256), big.NewInt(65537), new(big.Int).Set(curveN)} {
+		m := new(big.Int).Mul(curveN, j)
+		out = append(out, m.Bytes(), append([]byte{0}, m.Bytes()...), new(big.Int).Add(m, big.NewInt(1)).Bytes())
 	}
 	// table rows hit with byte 0 / 255
 	for row := 0; row < 32; row += 5 {
@@ -776,6 +804,19 @@ func genC12(e *emitter, r *rng, thorough bool) {
 		rr := new(big.Int).Sub(top, big.NewInt(d))
 		for _, hb := range []byte{29, 30} {
 			e.emit("recover.rx-band", "compact.recover "+hx(mk(hb, rr, big.NewInt(9)))+" "+hx(h))
+		}
+	}
+	// R with rare coordinates (see rarePoints): r = R.x, any s, any hash recovers SOME key; the decompression of R is
+	// where a lazily normalised x^3 + 7 shows
+	for _, p := range rarePoints(r, 2) {
+		if p.x.Cmp(curveN) < 0 && p.x.Sign() > 0 {
+			for _, hb := range []byte{27, 28, 31, 32} {
+				e.emit("recover.rare-R", "compact.recover "+hx(mk(hb, p.x, modN(new(big.Int).SetBytes(r.bytes(32)))))+" "+hx(r.bytes(32)))
+			}
+		} else if xm := new(big.Int).Sub(p.x, curveN); xm.Sign() > 0 {
+			for _, hb := range []byte{29, 30, 33, 34} {
+				e.emit("recover.rare-R.x>=N", "compact.recover "+hx(mk(hb, xm, modN(new(big.Int).SetBytes(r.bytes(32)))))+" "+hx(r.bytes(32)))
+			}
 		}
 	}
 	// tiny r with recid 2/3 (r + N < P)
